@@ -66,9 +66,11 @@ META = {
         "text": "ResponseClass (AttSec.tla) classifies all 256 opcodes; TLC checks on the model for all opcodes x lengths 1..23 "
                 "that the ideal server's answers have the demanded shape. On the code the grid all 256 opcodes x lengths "
                 "1..MTU (boundary handles 0, 1, max, max+1, 0xFFFF, CCCD / value handles, offsets around the value size) is "
-                "executed on corner declarations with and without write queue in 3-4 connection histories (fresh, after MTU "
-                "exchange, CCCDs set + encrypted, queue owned by another client); every PDU is passed in an exact-size heap "
-                "buffer with an exact-size output buffer under ASan/UBSan, a crash is an event no specification action "
+                "executed on corner declarations with and without write queue in 3-5 connection histories (fresh, after MTU "
+                "exchange to an intermediate and to the maximum value, CCCDs set + encrypted, queue owned by another client); "
+                "the input lengths go up to the server's maximum MTU in every history while the output buffer is a heap buffer "
+                "of exactly the negotiated MTU (input length and output capacity vary independently); every PDU is passed in an "
+                "exact-size heap buffer under ASan/UBSan, a crash is an event no specification action "
                 "accepts; TLC validates response class and length <= negotiated MTU for every request.",
         "note": "the grid is enumerated by the python check (plain product); commands = opcodes with the command flag; "
                 "responses / indications sent by the client are unconstrained; over-reads smaller than the ASan granularity "
@@ -280,19 +282,30 @@ def run_c10(c):
 KNOWN_OPS = [0x01, 0x02, 0x04, 0x06, 0x08, 0x0a, 0x0c, 0x0e, 0x10, 0x12, 0x16, 0x18, 0x1b, 0x1d, 0x1e, 0x52, 0xd2]
 
 
-def c01_grid(srv, mtu, thorough, unknown=True):
-    """all 256 opcodes x lengths 1..mtu with boundary field values -> list of PDUs (lists of ints)"""
+def c01_lengths(in_max, thorough, long_inputs):
+    """PDU lengths of the grid: every length up to 25, then (quick) every 8th and the last three up to in_max"""
+    if not long_inputs:
+        in_max = min(in_max, 25)
+    if thorough or in_max <= 25:
+        return list(range(1, in_max + 1))
+    return sorted(set(list(range(1, 26)) + list(range(28, in_max + 1, 8)) + [in_max - 2, in_max - 1, in_max]))
+
+
+def c01_grid(srv, in_max, thorough, unknown=True, long_inputs=True):
+    """all 256 opcodes x lengths 1..in_max (the server's maximum MTU - independent of the MTU negotiated in the history,
+    which is the size of the output buffer) with boundary field values -> list of PDUs (lists of ints). Every Prepare
+    Write Request is followed by an Execute Write Request 'cancel', so that the queue is free for the next one."""
     t = srv.table
     mx = t["maxHandle"]
     hs = [0, 1, mx, mx + 1, 0xffff]
     for special in (srv.cccds[:1], srv.values[:1], srv.values[-1:]):
         hs += [h for h in special if h not in hs]
     seconds = [0, 0xffff] if not thorough else [0, 2, 9, 0xffff]
-    lengths_all = list(range(1, mtu + 1)) if mtu <= 23 else list(range(1, 26)) + [mtu - 2, mtu - 1, mtu]
+    lengths = c01_lengths(in_max, thorough, long_inputs)
     out = []
     for op in range(256):
         if op in KNOWN_OPS:
-            for n in lengths_all:
+            for n in lengths:
                 for h in hs:
                     for s2 in seconds:
                         body = [h & 0xff, h >> 8, s2 & 0xff, s2 >> 8]
@@ -300,27 +313,33 @@ def c01_grid(srv, mtu, thorough, unknown=True):
                             body += [0x00 if op != 0x08 else 0x03, 0x28]
                         if op == 0x18:
                             body = [s2 & 0xff] + body
-                        body += [0x41 + (i % 16) for i in range(mtu)]
+                        body += [0x41 + (i % 16) for i in range(in_max)]
                         pdu = [op] + body[:n - 1]
                         if pdu not in out[-40:]:
                             out.append(pdu)
+                            if op == 0x16:
+                                out.append([0x18, 0x00])
         elif unknown:
-            for n in ([1, 2, 3, 5, mtu] if not thorough else [1, 2, 3, 4, 5, 6, mtu - 1, mtu]):
+            for n in sorted(set(x for x in ([1, 2, 3, 5, 23, 24, in_max] if not thorough else [1, 2, 3, 4, 5, 6, 22, 23, 24, in_max - 1, in_max]) if x <= in_max)):
                 out.append([op] + [0x03, 0x00, 0x00, 0x00][:n - 1] + [0x41] * max(0, n - 5))
     return out
 
 
 def c01_histories(srv):
-    """connection histories in front of the grid (script lines without reset / cccds / obs); requests go to connection 0"""
-    hist = [("fresh", [], 23)]
+    """connection histories in front of the grid: (name, script lines without reset / cccds / obs, long inputs in the
+    quick tier?); requests go to connection 0. The negotiated MTU of the history is the size of the output buffer; the
+    inputs are as long as the server's maximum MTU in any case."""
+    hist = [("fresh", [], True)]
     smtu = srv.norm["opts"]["mtu"]
+    if smtu > 24:
+        hist.append(("mtu_mid", ["mtu 0 %d" % ((23 + smtu) // 2)], True))
     if smtu > 23:
-        hist.append(("mtu", ["mtu 0 %d" % smtu], smtu))
+        hist.append(("mtu", ["mtu 0 %d" % smtu], True))
     pre = ["sec 0 1 1"] + ["req 0 18 %d %d 3 0" % (h & 0xff, h >> 8) for h in srv.cccds]
-    hist.append(("cccd_enc", pre, 23))
+    hist.append(("cccd_enc", pre, False))
     if srv.norm["opts"]["wq"] and srv.values:
         h = srv.values[0]
-        hist.append(("queue_owned", ["req 1 22 %d %d 0 0 1" % (h & 0xff, h >> 8)], 23))
+        hist.append(("queue_owned", ["req 1 22 %d %d 0 0 1" % (h & 0xff, h >> 8)], False))
     return hist
 
 
@@ -345,8 +364,9 @@ def run_c01(c):
 
     def one(s):
         scripts = []
-        for hname, pre, mtu in c01_histories(s):
-            grid = c01_grid(s, mtu, not c.quick, unknown=(not c.quick or hname in ("fresh", "mtu")))
+        for hname, pre, long_inputs in c01_histories(s):
+            grid = c01_grid(s, s.norm["opts"]["mtu"], not c.quick, unknown=(not c.quick or hname == "fresh"),
+                            long_inputs=(long_inputs or not c.quick))
             for i in range(0, len(grid), per_exec):
                 scripts.append(["reset", "cccds", "obs 0"] + pre + ["req 0 " + " ".join(str(b) for b in p) for p in grid[i:i + per_exec]])
         nfix = 3
